@@ -54,3 +54,6 @@ pub mod topk;
 
 #[cfg(test)]
 mod test_util;
+
+#[cfg(feature = "verif_hooks")]
+pub mod verif;
